@@ -748,8 +748,9 @@ func boundaryCases(c *Ctx, name string) {
 	for _, d := range c.boundaryInputs(name) {
 		items, st := f.decode(bytes.NewReader(d), 0, len(d)+16)
 		oracle := ""
-		if st != "" || len(items) < 2 {
-			oracle = fmt.Sprintf("%s input with a record boundary near a 4096-byte multiple: %d items, status %q", name, len(items), st)
+		want := expectedItems(name, d)
+		if st != "" || len(items) != want {
+			oracle = fmt.Sprintf("%s input with a record boundary near a 4096-byte multiple: %d items (status %q), the text holds %d records", name, len(items), st, want)
 		}
 		for _, it := range items {
 			if it == "E" {
@@ -759,4 +760,44 @@ func boundaryCases(c *Ctx, name string) {
 		c.add(Case{Op: decOpLine(f, "e", d), Impl: itemsStr(items, st), Kind: "boundary", Nontrivial: true, Oracle: oracle,
 			Note: fmt.Sprintf("%s input of %d bytes: %q…", name, len(d), trunc(string(d), 40))})
 	}
+}
+
+
+// expectedItems counts the records of a generated well-formed LF-terminated
+// input by a rule independent of the readers.
+func expectedItems(name string, d []byte) int {
+	lines := bytes.Split(bytes.TrimSuffix(d, []byte("\n")), []byte("\n"))
+	switch name {
+	case "fasta":
+		n := 0
+		for _, l := range lines {
+			if len(l) > 0 && l[0] == '>' {
+				n++
+			}
+		}
+		return n
+	case "fastq":
+		return len(lines) / 4
+	case "sam":
+		n := 0
+		for _, l := range lines {
+			if len(l) > 0 && l[0] != '@' {
+				n++
+			}
+		}
+		return n
+	case "samh", "bed":
+		return len(lines)
+	case "newick":
+		n, inq := 0, false
+		for _, b := range d {
+			if b == '\'' {
+				inq = !inq
+			} else if b == ';' && !inq {
+				n++
+			}
+		}
+		return n
+	}
+	return -1
 }
